@@ -67,7 +67,7 @@ def gcc_check(text, lines_of, prog, defines, bits):
 
 def replay_chunk(args):
     """Worker: run a list of (case, seed, fortran) through the real code."""
-    cases, seed, workdir, ext, want_trace = args
+    cases, seed, workdir, ext, want_trace, label = args
     fails = []
     stats = {"evals": 0, "nontrivial": 0, "ill": 0, "traces": []}
     d = tempfile.mkdtemp(prefix="c01-", dir=workdir)
@@ -98,10 +98,8 @@ def replay_chunk(args):
             trace_file = None
             if want_trace and ci % want_trace == 0:
                 trace_file = os.path.join(root, "trace.ndjson")
-                os.environ["CBI_VERIF_TRACE"] = trace_file
-            st, cb, logs, err = cbi.run_find(root, conf)
-            if trace_file:
-                os.environ.pop("CBI_VERIF_TRACE", None)
+            with cbi.tracing(trace_file):
+                st, cb, logs, err = cbi.run_find(root, conf)
             base_tags = set()
             for it in prog:
                 if it["k"] in ("if", "elif"):
@@ -138,7 +136,7 @@ def replay_chunk(args):
                                                 expected=sorted(e), got=sorted(used))))
                     break
             if trace_file and os.path.exists(trace_file):
-                stats["traces"].append((trace_file, path))
+                stats["traces"].append((trace_file, f"{label}:{os.path.basename(d)}/p{ci}"))
             else:
                 shutil.rmtree(root, ignore_errors=True)
         return fails, stats, d
@@ -188,7 +186,7 @@ def gcc_validate(ctx, cases, limit, seed):
 
 def replay_all(ctx, cases, ext=".c", want_trace=0, label="G"):
     work = ctx.scratch()
-    jobs = [(c, ctx.seed, work, ext, want_trace) for c in runner.chunks(cases, runner.NCPU * 3)]
+    jobs = [(c, ctx.seed, work, ext, want_trace, label) for c in runner.chunks(cases, runner.NCPU * 3)]
     res = runner.pmap(_replay_jobs, jobs, chunk=1)
     traces = []
     dirs = []
